@@ -434,12 +434,28 @@ public:
     void
     swap(XalanDeque&    theRHS)
     {
-        MemoryManager* const temp = m_memoryManager;
-        m_memoryManager = theRHS.m_memoryManager;
-        theRHS.m_memoryManager = temp;
+        if (m_blockSize != theRHS.m_blockSize)
+        {
+            // The blocks of one deque cannot be indexed with the
+            // (constant) block size of the other, so exchange the
+            // elements instead of the blocks.
+            ThisType    theTemp(*m_memoryManager, 0, m_blockSize);
 
-        theRHS.m_blockIndex.swap(m_blockIndex);
-        theRHS.m_freeBlockVector.swap(m_freeBlockVector);
+            theTemp = theRHS;
+
+            theRHS = *this;
+
+            swap(theTemp);
+        }
+        else
+        {
+            MemoryManager* const temp = m_memoryManager;
+            m_memoryManager = theRHS.m_memoryManager;
+            theRHS.m_memoryManager = temp;
+
+            theRHS.m_blockIndex.swap(m_blockIndex);
+            theRHS.m_freeBlockVector.swap(m_freeBlockVector);
+        }
     }
 
     XalanDeque&
